@@ -208,7 +208,7 @@ def chains(rep):
         elif f == "dur_arith":
             second = "%s %s %s" % (name, ph["op"], render.dur_parts_text(ph["b"], "en", ci))
         elif f == "time_diff":
-            second = "%s to %s" % (name, render.time_text(ph["w2"], NOZ, render.time_spellings(ph["w2"])[ci % 2][0]))
+            second = "%s to %s" % (name, render.time_text(ph["w2"], ph["z2"] if ph["z2"]["name"] else NOZ, render.time_spellings(ph["w2"])[ci % 2][0]))
         elif f == "time_conv":
             second = "%s to %s" % (name, ph["z2"]["name"])
         elif f == "time_shift":
